@@ -27,6 +27,7 @@ def exc_name(e):
 
 class C18(Prop):
     id = 'C18'
+    extracted = True      # arithmetic kernels regenerated from the current source (harness/extract.py, Extracted/Equiv*.lean)
     quick_cases = 400
     thorough_cases = 6000
     rule = ('cases are batches of (kind, items): kind in int/float/bool -> bounded cast vs Lean castBounded and '
